@@ -65,6 +65,15 @@ def handle6 (op : String) (a obs : List String) : Option Verdict :=
     let reason ← if get a 4 == "-" then some [] else unhex (get a 4)
     let whenS := get a 5
     let cause ← termCause style code reason
+    -- RESET_STREAM may overtake data that was sent before it (RFC 9000 §3.2: the receiver may
+    -- discard what it has not delivered yet): when the observation is the one for the reset
+    -- alone, that is the cause
+    let cause :=
+      if style == "raw_reset" then
+        match termCause style code [] with
+        | some c0 => if field obs "accept_uni" == connErr (Result.viaDriver c0) then c0 else cause
+        | none => cause
+      else cause
     let via := connErr (Result.viaDriver cause)
     let dir := connErr (Result.direct cause)
     let held := if whenS == "streams" then "not_connected" else "-"
